@@ -901,3 +901,748 @@ Example ex_program_names :
    "model.layers.0.mlp.2.weight"; "model.layers.1.0.weight"; "model.layers.1.1.weight";
    "model.layers.2.weight"; "model.head.weight"; "model.tail.0.weight"; "model.tail.1.weight"].
 Proof. vm_compute. reflexivity. Qed.
+
+(* ====================================================================================== sharing *)
+(* Part 4 of C18: module trees in which Parameter objects (and whole sub-modules) are shared.
+   General facts for EVERY tree (any names, any sharing), then the characterisation of the realised
+   names under the hypotheses of the positive theorems minus "no Parameter object is shared". *)
+From Coq Require Import Permutation.
+
+(* ------------------------------------------------------------------ first_occ *)
+Lemma first_by_id_map : forall A (idf : A -> nat) (nf : A -> string) l seen,
+  first_by_id seen (map (fun e => (idf e, nf e)) l) = map (fun e => (idf e, nf e)) (first_occ idf seen l).
+Proof.
+  induction l as [|x r IH]; intros seen; simpl; auto.
+  destruct (existsb (Nat.eqb (idf x)) seen); simpl; now rewrite IH.
+Qed.
+
+Lemma first_by_id_occ : forall ev seen, first_by_id seen ev = first_occ fst seen ev.
+Proof.
+  induction ev as [|[i n] r IH]; intros seen; simpl; auto.
+  destruct (existsb (Nat.eqb i) seen); now rewrite IH.
+Qed.
+
+Lemma first_occ_map : forall A B (f : A -> B) (idb : B -> nat) l seen,
+  first_occ idb seen (map f l) = map f (first_occ (fun a => idb (f a)) seen l).
+Proof.
+  induction l as [|x r IH]; intros seen; simpl; auto.
+  destruct (existsb (Nat.eqb (idb (f x))) seen); simpl; now rewrite IH.
+Qed.
+
+Lemma first_occ_ext : forall A (f g : A -> nat) l seen, (forall a, f a = g a) ->
+  first_occ f seen l = first_occ g seen l.
+Proof.
+  induction l as [|x r IH]; intros seen E; simpl; auto.
+  rewrite (E x). destruct (existsb (Nat.eqb (g x)) seen); now rewrite IH.
+Qed.
+
+Lemma first_occ_incl : forall A (idf : A -> nat) l seen x, In x (first_occ idf seen l) -> In x l.
+Proof.
+  induction l as [|y r IH]; intros seen x H; simpl in *; auto.
+  destruct (existsb (Nat.eqb (idf y)) seen).
+  - right. eapply IH; eauto.
+  - destruct H as [H|H]; auto. right. eapply IH; eauto.
+Qed.
+
+Lemma first_occ_length : forall A (idf : A -> nat) l seen,
+  List.length (first_occ idf seen l) <= List.length l.
+Proof.
+  induction l as [|y r IH]; intros seen; simpl; auto.
+  destruct (existsb (Nat.eqb (idf y)) seen); simpl.
+  - specialize (IH seen). lia.
+  - specialize (IH (idf y :: seen)). lia.
+Qed.
+
+Lemma existsb_eqb_In : forall x l, existsb (Nat.eqb x) l = true <-> In x l.
+Proof.
+  intros x l. rewrite existsb_exists. split.
+  - intros [y [Hy E]]. apply Nat.eqb_eq in E. now subst.
+  - intro H. exists x. split; auto. apply Nat.eqb_refl.
+Qed.
+
+Lemma existsb_eqb_notIn : forall x l, existsb (Nat.eqb x) l = false <-> ~ In x l.
+Proof.
+  intros x l. rewrite <- existsb_eqb_In. destruct (existsb (Nat.eqb x) l); split; intro H; congruence.
+Qed.
+
+(* the surviving identities are pairwise different and none was seen before *)
+Lemma first_occ_ids : forall A (idf : A -> nat) l seen,
+  NoDup (map idf (first_occ idf seen l)) /\
+  (forall i, In i seen -> ~ In i (map idf (first_occ idf seen l))).
+Proof.
+  induction l as [|y r IH]; intros seen; simpl.
+  - split; [constructor | intros i _ []].
+  - destruct (existsb (Nat.eqb (idf y)) seen) eqn:E.
+    + apply IH.
+    + destruct (IH (idf y :: seen)) as [Hn Hd]. simpl. split.
+      * constructor; auto. apply Hd. now left.
+      * intros i Hi [Hy|Hin].
+        -- subst i. apply existsb_eqb_notIn in E. contradiction.
+        -- apply (Hd i); auto. now right.
+Qed.
+
+(* nothing is dropped exactly when no identity repeats (and none was seen before) *)
+Lemma first_occ_full : forall A (idf : A -> nat) l seen,
+  List.length (first_occ idf seen l) = List.length l ->
+  NoDup (map idf l) /\ (forall i, In i seen -> ~ In i (map idf l)).
+Proof.
+  induction l as [|y r IH]; intros seen H; simpl in *.
+  - split; [constructor | intros i _ []].
+  - destruct (existsb (Nat.eqb (idf y)) seen) eqn:E.
+    + pose proof (first_occ_length A idf r seen). lia.
+    + simpl in H. injection H as H. destruct (IH (idf y :: seen) H) as [Hn Hd]. split.
+      * constructor; auto. apply Hd. now left.
+      * intros i Hi [Hy|Hin].
+        -- subst i. apply existsb_eqb_notIn in E. contradiction.
+        -- apply (Hd i); auto. now right.
+Qed.
+
+Lemma first_occ_id : forall A (idf : A -> nat) l seen,
+  NoDup (map idf l) -> (forall i, In i seen -> ~ In i (map idf l)) -> first_occ idf seen l = l.
+Proof.
+  induction l as [|y r IH]; intros seen Hn Hd; simpl in *; auto.
+  inversion Hn; subst.
+  destruct (existsb (Nat.eqb (idf y)) seen) eqn:E.
+  - apply existsb_eqb_In in E. exfalso. apply (Hd _ E). now left.
+  - f_equal. apply IH; auto. intros i [Hi|Hi] Hin.
+    + subst. contradiction.
+    + apply (Hd i Hi). now right.
+Qed.
+
+Lemma NoDup_map_first_occ : forall A B (g : A -> B) (idf : A -> nat) l seen,
+  NoDup (map g l) -> NoDup (map g (first_occ idf seen l)).
+Proof.
+  induction l as [|y r IH]; intros seen Hn; simpl in *; [constructor|].
+  inversion Hn as [|? ? Hnotin Hn']; subst.
+  destruct (existsb (Nat.eqb (idf y)) seen); simpl; auto.
+  constructor; auto. intro Hin. apply Hnotin.
+  apply in_map_iff in Hin as [z [Ez Hz]]. apply in_map_iff. exists z. split; auto.
+  eapply first_occ_incl; eauto.
+Qed.
+
+Lemma NoDup_nodup_natb : forall l, NoDup l -> nodup_natb l = true.
+Proof.
+  induction l as [|x r IH]; intro H; simpl; auto. inversion H; subst.
+  apply andb_true_iff. split; auto. apply negb_true_iff. now apply existsb_eqb_notIn.
+Qed.
+
+Lemma dict_keys_length : forall l seen, List.length (dict_keys seen l) <= List.length l.
+Proof.
+  induction l as [|x r IH]; intros seen; simpl; auto.
+  destruct (mem_str x seen); simpl.
+  - specialize (IH seen). lia.
+  - specialize (IH (x :: seen)). lia.
+Qed.
+
+(* ------------------------------------------------------------------ facts for every tree *)
+Lemma lp_okb_eq : forall k nm ps cs sb,
+  lp_okb (MT k nm ps cs sb) =
+  (match k, ps with KList, _ :: _ => false | _, _ => true end) && forallb (fun kc => lp_okb (snd kc)) cs.
+Proof.
+  intros. simpl. f_equal. induction cs as [|[key c] r IH]; simpl; auto. now rewrite IH.
+Qed.
+
+(* the identities reached by the call are the registered identities, in state_dict order *)
+Lemma event_ids : forall t cf insub rst st pre, lp_okb t = true ->
+  map fst (events cf insub rst st t) = map snd (sd_entries pre t).
+Proof.
+  induction t as [k nm ps cs sb IH] using mtree_ind'. intros cf insub rst st pre Hl.
+  rewrite lp_okb_eq in Hl. apply andb_true_iff in Hl as [Hlp Hcs]. rewrite forallb_forall in Hcs.
+  rewrite Forall_forall in IH.
+  rewrite events_eq, sd_entries_eq, map_app, map_map, (map_flat_map' _ _ _ snd). cbn [snd].
+  destruct k.
+  - cbv zeta. rewrite map_app, map_map, map_flat_map'. cbn [fst]. f_equal.
+    apply flat_map_ext_in. intros kc Hin. apply IH; auto.
+  - destruct ps as [|p ps']; [|discriminate]. cbn [map app]. rewrite map_flat_map'.
+    apply flat_map_ext_in. intros kc Hin. apply IH; auto.
+  - cbv zeta. rewrite map_app, map_map, map_flat_map'. cbn [fst]. f_equal.
+    apply flat_map_ext_in. intros kc Hin. apply IH; auto.
+Qed.
+
+(* every registered Parameter OBJECT is realised exactly once, in the order of its first registration:
+   for every tree, whatever its names, with Parameter objects or whole sub-modules shared *)
+Theorem realised_ids_distinct : forall cf t, lp_okb t = true ->
+  realised_ids cf t = distinct_ids t /\ NoDup (realised_ids cf t) /\
+  (forall i, In i (param_ids t) <-> In i (realised_ids cf t)).
+Proof.
+  intros cf t Hl.
+  assert (E : realised_ids cf t = distinct_ids t).
+  { unfold realised_ids, distinct_ids, first_entries.
+    rewrite first_by_id_occ.
+    rewrite <- (first_occ_map _ _ fst (fun i => i)), <- (first_occ_map _ _ snd (fun i => i)).
+    now rewrite (event_ids t cf false [] [] "" Hl). }
+  split; [exact E|]. rewrite E. unfold distinct_ids, first_entries.
+  rewrite <- (first_occ_map _ _ snd (fun i => i)). fold (param_ids t). split.
+  - pose proof (first_occ_ids nat (fun i => i) (param_ids t) []) as [Hn _]. now rewrite map_id in Hn.
+  - intro i. split.
+    + (* completeness: every identity has a first occurrence *)
+      assert (G : forall l seen, In i l -> ~ In i seen -> In i (first_occ (fun j => j) seen l)).
+      { induction l as [|y r IHl]; intros seen Hin Hs; simpl in *; [contradiction|].
+        destruct (existsb (Nat.eqb y) seen) eqn:Ey.
+        - destruct Hin as [->|Hin]; [apply existsb_eqb_In in Ey; contradiction | auto].
+        - destruct (Nat.eq_dec y i) as [->|Hne]; [now left|]. right. destruct Hin as [->|Hin]; [congruence|].
+          apply IHl; auto. intros [->|H']; auto. }
+      intro Hin. apply G; auto.
+    + apply first_occ_incl.
+Qed.
+
+Lemma realised_length_le : forall cf t, lp_okb t = true ->
+  List.length (realised_names cf t) <= List.length (distinct_ids t).
+Proof.
+  intros cf t Hl. destruct (realised_ids_distinct cf t Hl) as [E _]. rewrite <- E.
+  unfold realised_names, realised_ids.
+  etransitivity; [apply dict_keys_length|]. now rewrite !map_length.
+Qed.
+
+(* sharing always shows: if some identity is registered twice, there are fewer initializers than
+   state_dict keys -- for every tree (in particular for shared sub-modules, whatever their names) *)
+Theorem names_eq_implies_no_sharing : forall cf t, lp_okb t = true ->
+  List.length (realised_names cf t) = List.length (sd_keys t) -> nodup_natb (param_ids t) = true.
+Proof.
+  intros cf t Hl Hlen. pose proof (realised_length_le cf t Hl) as Hle.
+  unfold distinct_ids, first_entries in Hle. rewrite map_length in Hle.
+  assert (Hfull : List.length (first_occ snd [] (sd_entries "" t)) = List.length (sd_entries "" t)).
+  { pose proof (first_occ_length _ snd (sd_entries "" t) []). unfold sd_keys in Hlen. rewrite map_length in Hlen. lia. }
+  apply NoDup_nodup_natb. exact (proj1 (first_occ_full _ snd _ [] Hfull)).
+Qed.
+
+(* ------------------------------------------------------------------ sd_entries3 *)
+Lemma sd_entries3_eq : forall pre k nm ps cs sb,
+  sd_entries3 pre (MT k nm ps cs sb) =
+  (map (fun p => (prefix pre (pe_key p), pe_id p, prefix pre (pe_name p))) ps ++
+   flat_map (fun kc => sd_entries3 (prefix pre (fst kc)) (snd kc)) cs)%list.
+Proof.
+  intros. simpl. f_equal. induction cs as [|[key c] r IH]; simpl; auto. now rewrite IH.
+Qed.
+
+Lemma sd_entries3_proj : forall t pre, map fst (sd_entries3 pre t) = sd_entries pre t.
+Proof.
+  induction t as [k nm ps cs sb IH] using mtree_ind'. intros pre. rewrite Forall_forall in IH.
+  rewrite sd_entries3_eq, sd_entries_eq, map_app, map_map, map_flat_map'. cbn [fst]. f_equal.
+  apply flat_map_ext_in. intros kc Hin. apply IH; auto.
+Qed.
+
+Lemma keys_shb_eq : forall k nm ps cs sb,
+  keys_shb (MT k nm ps cs sb) =
+  (match k, ps with KList, _ :: _ => false | _, _ => true end) &&
+  forallb (fun p => keyok (pe_key p)) ps &&
+  nodup_strb (map pe_key ps) && nodup_strb (map fst cs) &&
+  forallb (fun kc => keyok (fst kc) && keys_shb (snd kc)) cs.
+Proof.
+  intros. simpl. f_equal. induction cs as [|[key c] r IH]; simpl; auto. now rewrite IH.
+Qed.
+
+Lemma keys_shb_lp : forall t, keys_shb t = true -> lp_okb t = true.
+Proof.
+  induction t as [k nm ps cs sb IH] using mtree_ind'. intro H. rewrite Forall_forall in IH.
+  rewrite keys_shb_eq in H. rewrite lp_okb_eq.
+  apply andb_true_iff in H as [H Hcs]. apply andb_true_iff in H as [H _].
+  apply andb_true_iff in H as [H _]. apply andb_true_iff in H as [Hlp _].
+  apply andb_true_iff. split; auto. rewrite forallb_forall in *. intros kc Hin.
+  specialize (Hcs _ Hin). apply andb_true_iff in Hcs as [_ Hc]. apply IH; auto.
+Qed.
+
+(* the tree with every Parameter renamed to its key: same state_dict, and `keys_okb` of it is `keys_shb` *)
+Definition pe_by_key (p : pentry) : pentry := PE (pe_key p) (pe_id p) (pe_key p).
+Fixpoint by_key (t : mtree) : mtree :=
+  let 'MT k nm ps cs sb := t in
+  MT k nm (map pe_by_key ps)
+     ((fix go (l : list (string * mtree)) : list (string * mtree) :=
+         match l with [] => [] | (key, c) :: r => (key, by_key c) :: go r end) cs) sb.
+
+Lemma by_key_eq : forall k nm ps cs sb,
+  by_key (MT k nm ps cs sb) = MT k nm (map pe_by_key ps) (map (fun kc => (fst kc, by_key (snd kc))) cs) sb.
+Proof.
+  intros. simpl. f_equal. induction cs as [|[key c] r IH]; simpl; auto. now rewrite IH.
+Qed.
+
+Lemma sd_entries_by_key : forall t pre, sd_entries pre (by_key t) = sd_entries pre t.
+Proof.
+  induction t as [k nm ps cs sb IH] using mtree_ind'. intros pre. rewrite Forall_forall in IH.
+  rewrite by_key_eq, !sd_entries_eq, map_map. f_equal.
+  rewrite flat_map_concat_map, map_map, <- flat_map_concat_map. cbn [fst snd].
+  apply flat_map_ext_in. intros kc Hin. apply IH; auto.
+Qed.
+
+Lemma keys_okb_by_key : forall t, keys_shb t = true -> keys_okb (by_key t) = true.
+Proof.
+  induction t as [k nm ps cs sb IH] using mtree_ind'. intro H. rewrite Forall_forall in IH.
+  rewrite keys_shb_eq in H. rewrite by_key_eq, keys_okb_eq.
+  apply andb_true_iff in H as [H Hcs]. apply andb_true_iff in H as [H Hnd2].
+  apply andb_true_iff in H as [H Hnd1]. apply andb_true_iff in H as [Hlp Hk].
+  repeat (apply andb_true_iff; split).
+  - destruct k; auto. destruct ps; auto.
+  - rewrite forallb_forall in *. intros p Hp. apply in_map_iff in Hp as [q [<- Hq]]. cbn.
+    rewrite (Hk _ Hq). apply String.eqb_refl.
+  - now rewrite map_map.
+  - now rewrite map_map.
+  - rewrite forallb_forall in *. intros kc Hin. apply in_map_iff in Hin as [kc0 [<- Hin0]]. cbn [fst snd].
+    specialize (Hcs _ Hin0). apply andb_true_iff in Hcs as [Hkey Hc]. rewrite Hkey. cbn. apply IH; auto.
+Qed.
+
+Lemma sd_keys_nodup_sh : forall t, keys_shb t = true -> NoDup (map fst (sd_entries "" t)).
+Proof.
+  intros t H. rewrite <- (sd_entries_by_key t ""). apply sd_keys_nodup. now apply keys_okb_by_key.
+Qed.
+
+Definition pre3 (pre : string) (e : string * nat * string) : string * nat * string :=
+  (prefix pre (e3_key e), e3_id e, prefix pre (e3_name e)).
+
+Lemma sd_entries3_pre : forall t pre, keys_shb t = true ->
+  sd_entries3 pre t = map (pre3 pre) (sd_entries3 "" t).
+Proof.
+  induction t as [k nm ps cs sb IH] using mtree_ind'. intros pre Hk.
+  rewrite keys_shb_eq in Hk. repeat (apply andb_true_iff in Hk as [Hk ?]).
+  rewrite !sd_entries3_eq, map_app, map_map. f_equal.
+  rewrite map_flat_map'. apply flat_map_ext_in. intros [key c] Hin. cbn [fst snd].
+  rewrite forallb_forall in H. specialize (H _ Hin). cbn [fst snd] in H. apply andb_true_iff in H as [Hkey Hc].
+  rewrite Forall_forall in IH. specialize (IH _ Hin). cbn [fst snd] in IH.
+  rewrite (IH (prefix pre key) Hc), (IH (prefix "" key) Hc), map_map. apply map_ext. intros [[k' i] n'].
+  unfold pre3, e3_key, e3_id, e3_name. cbn [fst snd].
+  assert (Hne : nonempty key = true) by now apply keyok_nonempty.
+  rewrite prefix_empty, !(prefix_nonempty key _ Hne), !prefix_dot by auto. reflexivity.
+Qed.
+
+(* ------------------------------------------------------------------ events of a named tree, own names *)
+Lemma events_named3 : forall cf t, keys_shb t = true ->
+  forall acc insub rst st, named acc t -> nonempty acc = true -> scope_sane cf insub t ->
+  events cf insub rst st t =
+  map (fun e => (e3_id e, qualify_init st (dot acc (e3_name e)))) (sd_entries3 "" t).
+Proof.
+  intros cf. induction t as [k nm ps cs sb IH] using mtree_ind'.
+  intros Hk acc insub rst st Hn Ha Hs.
+  rewrite keys_shb_eq in Hk.
+  apply andb_true_iff in Hk as [Hk Hcs]. apply andb_true_iff in Hk as [Hk Hnd2].
+  apply andb_true_iff in Hk as [Hk Hnd1]. apply andb_true_iff in Hk as [Hlp Hk].
+  inversion Hn as [k0 acc0 ps0 cs0 sb0 Hch]; subst.
+  rewrite events_eq, sd_entries3_eq.
+  rewrite Forall_forall in IH. rewrite Forall_forall in Hch. rewrite forallb_forall in Hcs.
+  assert (Hchild : forall insub' rst' st' key c, In (key, c) cs -> named key c ->
+            scope_sane cf insub' c ->
+            events cf insub' rst' (st' ++ [acc]) c =
+            map (fun e => (e3_id e, qualify_init st' (dot acc (e3_name e)))) (sd_entries3 (prefix "" key) c)).
+  { intros insub' rst' st' key c Hin Hnc Hsc.
+    specialize (Hcs _ Hin). cbn [fst snd] in Hcs. apply andb_true_iff in Hcs as [Hkey Hc].
+    rewrite (IH _ Hin Hc key); [| exact Hnc | now apply keyok_nonempty | exact Hsc].
+    rewrite prefix_empty, (sd_entries3_pre c key Hc), map_map. apply map_ext. intros [[k' i] n'].
+    unfold pre3, e3_key, e3_id, e3_name. cbn [fst snd].
+    rewrite prefix_nonempty by now apply keyok_nonempty.
+    now rewrite qualify_push. }
+  destruct k.
+  - cbv zeta. rewrite (scope_sane_qst cf insub _ rst (st ++ [acc])%list Hs).
+    rewrite map_app, map_map. f_equal.
+    + apply map_ext. intros p. unfold e3_id, e3_name. cbn [fst snd]. rewrite prefix_empty. now rewrite qualify_push.
+    + rewrite map_flat_map'. apply flat_map_ext_in. intros [key c] Hin. cbn [fst snd].
+      apply Hchild; auto. exact (Hch _ Hin). exact (scope_sane_child _ _ _ _ _ _ _ _ Hs Hin).
+  - destruct ps as [|p ps']; [|discriminate].
+    cbn [map app]. rewrite map_flat_map'. apply flat_map_ext_in. intros [key c] Hin. cbn [fst snd].
+    specialize (Hcs _ Hin). cbn [fst snd] in Hcs. apply andb_true_iff in Hcs as [Hkey Hc].
+    assert (Hs' : scope_sane cf insub c).
+    { destruct Hs as [Hs | [Hi Hs]]; [now left|]. right. split; auto.
+      rewrite nosubb_eq in Hs. apply andb_true_iff in Hs as [_ Hs]. rewrite forallb_forall in Hs.
+      exact (Hs _ Hin). }
+    rewrite (IH _ Hin Hc (dot acc key)); [| exact (Hch _ Hin) | apply negb_true_iff, dot_nonempty | exact Hs'].
+    rewrite prefix_empty, (sd_entries3_pre c key Hc), map_map. apply map_ext. intros [[k' i] n'].
+    unfold pre3, e3_key, e3_id, e3_name. cbn [fst snd].
+    rewrite prefix_nonempty by now apply keyok_nonempty.
+    now rewrite dot_assoc.
+  - cbv zeta. rewrite (scope_sane_qst cf insub _ rst (st ++ [acc])%list Hs).
+    rewrite map_app, map_map. f_equal.
+    + apply map_ext. intros p. unfold e3_id, e3_name. cbn [fst snd]. rewrite prefix_empty. now rewrite qualify_push.
+    + rewrite map_flat_map'. apply flat_map_ext_in. intros [key c] Hin. cbn [fst snd].
+      apply Hchild; auto. exact (Hch _ Hin). exact (scope_sane_child _ _ _ _ _ _ _ _ Hs Hin).
+Qed.
+
+Theorem events_root3 : forall cf t,
+  t_kind t <> KList -> shape_ok t -> keys_shb t = true -> scope_sane cf false t ->
+  events cf false [] [] t =
+  map (fun e => (e3_id e, prefix (root_name t) (e3_name e))) (sd_entries3 "" t).
+Proof.
+  intros cf [k nm ps cs sb] Hkind Hshape Hk Hs. cbn [t_kind] in Hkind.
+  pose proof Hk as Hk0. rewrite keys_shb_eq in Hk.
+  apply andb_true_iff in Hk as [Hk Hcs]. apply andb_true_iff in Hk as [Hk Hnd2].
+  apply andb_true_iff in Hk as [Hk Hnd1]. apply andb_true_iff in Hk as [Hlp Hk].
+  rewrite forallb_forall in Hcs.
+  inversion Hshape as [? ? ? ? Hch | ? ? ? ? ? _ Hch]; subst; [congruence|]. rewrite Forall_forall in Hch.
+  rewrite events_eq, sd_entries3_eq. unfold root_name. cbn [t_name].
+  set (me := match nm with Some n => n | None => "" end).
+  transitivity ((map (fun p => (pe_id p, qualify_init [me] (pe_name p))) ps ++
+               flat_map (fun kc => events cf (false || sb) [me] [me] (snd kc)) cs)%list).
+  { destruct k; try congruence; cbv zeta; cbn [app]; destruct (realize_uses_root_scope cf); reflexivity. }
+  rewrite map_app, map_map. f_equal.
+  - apply map_ext. intros p. unfold e3_id, e3_name. cbn [fst snd]. now rewrite prefix_empty, qualify_single.
+  - rewrite map_flat_map'. apply flat_map_ext_in. intros [key c] Hin. cbn [fst snd].
+    specialize (Hcs _ Hin). cbn [fst snd] in Hcs. apply andb_true_iff in Hcs as [Hkey Hc].
+    rewrite (events_named3 cf c Hc key); [| exact (Hch _ Hin) | now apply keyok_nonempty
+                                          | exact (scope_sane_child _ _ _ _ _ _ _ _ Hs Hin)].
+    rewrite prefix_empty, (sd_entries3_pre c key Hc), map_map. apply map_ext. intros [[k' i] n'].
+    unfold pre3, e3_key, e3_id, e3_name. cbn [fst snd].
+    rewrite (prefix_nonempty key n') by now apply keyok_nonempty. now rewrite qualify_single.
+Qed.
+
+(* ------------------------------------------------------------------ the initializer dict *)
+Lemma dict_set_fresh : forall k v d, ~ In k (map fst d) -> dict_set k v d = (d ++ [(k, v)])%list.
+Proof.
+  induction d as [|[k' v'] r IH]; intro H; simpl in *; auto.
+  destruct (String.eqb k k') eqn:E.
+  - apply String.eqb_eq in E. subst. exfalso. apply H. now left.
+  - f_equal. apply IH. intro Hin. apply H. now right.
+Qed.
+
+Lemma fold_dict_set_fresh : forall (l : list (nat * string)) d,
+  NoDup (map snd l) -> (forall k, In k (map fst d) -> ~ In k (map snd l)) ->
+  fold_left (fun d e => dict_set (snd e) (fst e) d) l d = (d ++ map (fun e => (snd e, fst e)) l)%list.
+Proof.
+  induction l as [|[i n] r IH]; intros d Hn Hd; simpl in *.
+  - now rewrite app_nil_r.
+  - inversion Hn; subst. rewrite dict_set_fresh.
+    + rewrite IH; auto.
+      * now rewrite <- app_assoc.
+      * intros k Hk Hin. rewrite map_app in Hk. apply in_app_or in Hk as [Hk|[Hk|[]]].
+        -- apply (Hd k Hk). now right.
+        -- cbn in Hk. subst. contradiction.
+    + intro Hin. apply (Hd n Hin). now left.
+Qed.
+
+(* ------------------------------------------------------------------ tree-level theorems with sharing *)
+Definition tree_sh_hyps (cf : cfg) (t : mtree) : Prop :=
+  t_kind t <> KList /\ shape_ok t /\ keys_shb t = true /\ first_named_okb t = true /\
+  (realize_uses_root_scope cf = false \/ nosubb t = true).
+
+Lemma first_entries_3 : forall t,
+  first_entries t = map fst (first_occ e3_id [] (sd_entries3 "" t)).
+Proof.
+  intro t. unfold first_entries. rewrite <- (sd_entries3_proj t ""), first_occ_map. reflexivity.
+Qed.
+
+(* what is realised, in full: the (identity, name) pairs that Parameter._realize stores *)
+Lemma realised_pairs_sh : forall cf t, tree_sh_hyps cf t ->
+  first_by_id [] (events cf false [] [] t) =
+  map (fun e => (snd e, prefix (root_name t) (fst e))) (first_entries t).
+Proof.
+  intros cf t (Hkind & Hshape & Hk & Hfn & Hs).
+  assert (Hs' : scope_sane cf false t) by (destruct Hs; [left|right]; auto).
+  rewrite (events_root3 cf t Hkind Hshape Hk Hs').
+  rewrite (first_by_id_map _ e3_id (fun e => prefix (root_name t) (e3_name e))).
+  rewrite first_entries_3, map_map. apply map_ext_in. intros e He.
+  unfold first_named_okb in Hfn. rewrite forallb_forall in Hfn. specialize (Hfn _ He).
+  apply String.eqb_eq in Hfn. rewrite Hfn. reflexivity.
+Qed.
+
+Lemma first_keys_nodup : forall t r, keys_shb t = true -> NoDup (map (prefix r) (first_keys t)).
+Proof.
+  intros t r Hk. apply FinFun.Injective_map_NoDup; [intros a b; apply prefix_inj|].
+  unfold first_keys, first_entries. apply NoDup_map_first_occ. now apply sd_keys_nodup_sh.
+Qed.
+
+(* the realised names are the names of the FIRST registration of every Parameter object *)
+Theorem realised_names_sharing : forall cf t, tree_sh_hyps cf t ->
+  realised_names cf t = map (prefix (root_name t)) (first_keys t).
+Proof.
+  intros cf t H. unfold realised_names. rewrite (realised_pairs_sh cf t H).
+  destruct H as (_ & _ & Hk & _ & _).
+  rewrite map_map. cbn [snd]. unfold first_keys. rewrite <- (map_map fst (prefix (root_name t))).
+  apply dict_keys_id; [| intros x []]. exact (first_keys_nodup t (root_name t) Hk).
+Qed.
+
+Theorem init_dict_sharing : forall cf t, tree_sh_hyps cf t ->
+  init_dict cf t = map (fun e => (prefix (root_name t) (fst e), snd e)) (first_entries t).
+Proof.
+  intros cf t H. unfold init_dict. rewrite (realised_pairs_sh cf t H).
+  destruct H as (_ & _ & Hk & _ & _).
+  rewrite fold_dict_set_fresh.
+  - cbn [app]. rewrite map_map. reflexivity.
+  - rewrite map_map. cbn [snd]. rewrite <- (map_map fst (prefix (root_name t))).
+    exact (first_keys_nodup t (root_name t) Hk).
+  - intros k [].
+Qed.
+
+(* every Parameter OBJECT is an initializer exactly once: pairwise different names, as many as there
+   are distinct objects, each object stored under exactly one of them *)
+Theorem params_once_sharing : forall cf t, tree_sh_hyps cf t ->
+  NoDup (realised_names cf t) /\
+  List.length (realised_names cf t) = List.length (distinct_ids t) /\
+  map snd (init_dict cf t) = distinct_ids t /\ NoDup (distinct_ids t) /\
+  map fst (init_dict cf t) = realised_names cf t.
+Proof.
+  intros cf t H. rewrite (realised_names_sharing cf t H), (init_dict_sharing cf t H).
+  pose proof H as (_ & _ & Hk & _ & _). repeat split.
+  - exact (first_keys_nodup t (root_name t) Hk).
+  - unfold first_keys, distinct_ids. now rewrite !map_length.
+  - rewrite map_map. reflexivity.
+  - unfold distinct_ids, first_entries. apply (proj1 (first_occ_ids _ snd (sd_entries "" t) [])).
+  - rewrite map_map. unfold first_keys. now rewrite map_map.
+Qed.
+
+(* THE CHARACTERISATION: names = root + state_dict keys exactly when no Parameter object is shared *)
+Theorem names_eq_iff_no_sharing_tree : forall cf t, tree_sh_hyps cf t ->
+  (realised_names cf t = map (prefix (root_name t)) (sd_keys t) <-> nodup_natb (param_ids t) = true).
+Proof.
+  intros cf t H. split.
+  - intro E. pose proof H as (_ & _ & Hk & _ & _).
+    apply (names_eq_implies_no_sharing cf t (keys_shb_lp t Hk)). rewrite E. now rewrite map_length.
+  - intro Hn. rewrite (realised_names_sharing cf t H). f_equal.
+    unfold first_keys, first_entries, sd_keys. f_equal.
+    apply first_occ_id; [| intros i []]. apply nodup_natb_NoDup. exact Hn.
+Qed.
+
+(* the same for the names as sets / in any order *)
+Theorem names_perm_iff_no_sharing_tree : forall cf t, tree_sh_hyps cf t ->
+  (Permutation (realised_names cf t) (map (prefix (root_name t)) (sd_keys t))
+   <-> nodup_natb (param_ids t) = true).
+Proof.
+  intros cf t H. split.
+  - intro P. pose proof H as (_ & _ & Hk & _ & _).
+    apply (names_eq_implies_no_sharing cf t (keys_shb_lp t Hk)).
+    rewrite (Permutation_length P). now rewrite map_length.
+  - intro Hn. rewrite (proj2 (names_eq_iff_no_sharing_tree cf t H) Hn). apply Permutation_refl.
+Qed.
+
+(* ------------------------------------------------------------------ decidable hypotheses *)
+Lemma namedb_named : forall t acc, namedb acc t = true -> named acc t.
+Proof.
+  induction t as [k nm ps cs sb IH] using mtree_ind'. intros acc H. rewrite Forall_forall in IH.
+  assert (E : namedb acc (MT k nm ps cs sb) =
+              (match nm with Some n => String.eqb n acc | None => false end) &&
+              forallb (fun kc => namedb (child_acc k acc (fst kc)) (snd kc)) cs).
+  { clear. cbn [namedb]. f_equal. induction cs as [|[key c] r IHr]; [reflexivity|].
+    cbn [forallb fst snd]. rewrite <- IHr. destruct k; reflexivity. }
+  rewrite E in H. apply andb_true_iff in H as [Hn Hc]. destruct nm as [n|]; [|discriminate].
+  apply String.eqb_eq in Hn. subst n. constructor. rewrite Forall_forall. rewrite forallb_forall in Hc.
+  intros kc Hin. apply IH; auto.
+Qed.
+
+Lemma shape_okb_ok : forall t, shape_okb t = true -> shape_ok t.
+Proof.
+  induction t as [k nm ps cs sb IH] using mtree_ind'. intro H. rewrite Forall_forall in IH.
+  assert (E : shape_okb (MT k nm ps cs sb) =
+              forallb (fun kc => match k with KList => shape_okb (snd kc) | _ => namedb (fst kc) (snd kc) end) cs).
+  { clear. cbn [shape_okb]. induction cs as [|[key c] r IHr]; [reflexivity|].
+    cbn [forallb fst snd]. rewrite <- IHr. destruct k; reflexivity. }
+  rewrite E in H. rewrite forallb_forall in H. destruct k.
+  - apply ShapeCall; [discriminate|]. rewrite Forall_forall. intros kc Hin. apply namedb_named. exact (H _ Hin).
+  - apply ShapeList. rewrite Forall_forall. intros kc Hin. apply IH; auto.
+  - apply ShapeCall; [discriminate|]. rewrite Forall_forall. intros kc Hin. apply namedb_named. exact (H _ Hin).
+Qed.
+
+Lemma tree_sh_okb_hyps : forall cf t, tree_sh_okb cf t = true -> tree_sh_hyps cf t.
+Proof.
+  intros cf t H. unfold tree_sh_okb, sharing_okb in H.
+  apply andb_true_iff in H as [H Hst]. apply andb_true_iff in H as [Hk Hshape].
+  apply andb_true_iff in Hst as [Hst Hsub]. apply andb_true_iff in Hst as [Hkeys Hfn].
+  unfold tree_sh_hyps. repeat split; auto.
+  - intro E. rewrite E in Hk. discriminate.
+  - now apply shape_okb_ok.
+  - apply orb_true_iff in Hsub as [Hsub|Hsub]; auto. left. now apply negb_true_iff.
+Qed.
+
+Lemma program_sh_ok_hyps : forall cf s, program_sh_okb cf s = true -> tree_sh_hyps cf (construct cf s).
+Proof.
+  intros cf s H. unfold program_sh_okb, sharing_okb in H.
+  apply andb_true_iff in H as [H Hst]. apply andb_true_iff in H as [Hc Hk].
+  apply andb_true_iff in Hst as [Hst Hsub]. apply andb_true_iff in Hst as [Hkeys Hfn].
+  unfold tree_sh_hyps. repeat split; auto.
+  - rewrite construct_kind by auto. intro E. rewrite E in Hk. discriminate.
+  - now apply construct_shape.
+  - apply orb_true_iff in Hsub as [Hsub|Hsub]; auto. left. now apply negb_true_iff.
+Qed.
+
+(* ------------------------------------------------------------------ program-level theorems with sharing *)
+Theorem param_names_first_registration : forall cf s, program_sh_okb cf s = true ->
+  realised_names cf (construct cf s) =
+  map (prefix (root_name (construct cf s))) (first_keys (construct cf s)).
+Proof. intros. apply realised_names_sharing. now apply program_sh_ok_hyps. Qed.
+
+Theorem param_objects_once : forall cf s, program_sh_okb cf s = true ->
+  let t := construct cf s in
+  NoDup (realised_names cf t) /\
+  List.length (realised_names cf t) = List.length (distinct_ids t) /\
+  map snd (init_dict cf t) = distinct_ids t /\ NoDup (distinct_ids t) /\
+  map fst (init_dict cf t) = realised_names cf t.
+Proof. intros. apply params_once_sharing. now apply program_sh_ok_hyps. Qed.
+
+Theorem names_eq_iff_no_sharing : forall cf s, program_sh_okb cf s = true ->
+  (realised_names cf (construct cf s) =
+   map (prefix (root_name (construct cf s))) (sd_keys (construct cf s))
+   <-> nodup_natb (param_ids (construct cf s)) = true).
+Proof. intros. apply names_eq_iff_no_sharing_tree. now apply program_sh_ok_hyps. Qed.
+
+Theorem names_perm_iff_no_sharing : forall cf s, program_sh_okb cf s = true ->
+  (Permutation (realised_names cf (construct cf s))
+     (map (prefix (root_name (construct cf s))) (sd_keys (construct cf s)))
+   <-> nodup_natb (param_ids (construct cf s)) = true).
+Proof. intros. apply names_perm_iff_no_sharing_tree. now apply program_sh_ok_hyps. Qed.
+
+(* the positive theorems are instances: without sharing the first registrations are all registrations *)
+Lemma keys_okb_sh : forall t, keys_okb t = true ->
+  keys_shb t = true /\ (forall pre e, In e (sd_entries3 pre t) -> e3_name e = e3_key e).
+Proof.
+  induction t as [k nm ps cs sb IH] using mtree_ind'. intro H. rewrite Forall_forall in IH.
+  rewrite keys_okb_eq in H. rewrite keys_shb_eq.
+  apply andb_true_iff in H as [H Hcs]. apply andb_true_iff in H as [H Hnd2].
+  apply andb_true_iff in H as [H Hnd1]. apply andb_true_iff in H as [Hlp Hk].
+  rewrite forallb_forall in Hk, Hcs. split.
+  - repeat (apply andb_true_iff; split); auto.
+    + apply forallb_forall. intros p Hp. specialize (Hk _ Hp). now apply andb_true_iff in Hk as [? _].
+    + apply forallb_forall. intros kc Hin. specialize (Hcs _ Hin). apply andb_true_iff in Hcs as [Hkey Hc].
+      rewrite Hkey. cbn. exact (proj1 (IH _ Hin Hc)).
+  - intros pre e He. rewrite sd_entries3_eq in He. apply in_app_or in He as [He|He].
+    + apply in_map_iff in He as [p [<- Hp]]. specialize (Hk _ Hp). apply andb_true_iff in Hk as [_ Hk].
+      apply String.eqb_eq in Hk. unfold e3_name, e3_key. cbn [fst snd]. now rewrite Hk.
+    + apply in_flat_map in He as [kc [Hin He]]. specialize (Hcs _ Hin). apply andb_true_iff in Hcs as [_ Hc].
+      exact (proj2 (IH _ Hin Hc) _ _ He).
+Qed.
+
+Theorem program_okb_sh : forall cf s, program_okb cf s = true ->
+  program_sh_okb cf s = true /\ nodup_natb (param_ids (construct cf s)) = true.
+Proof.
+  intros cf s H. unfold program_okb, static_okb in H. unfold program_sh_okb, sharing_okb.
+  apply andb_true_iff in H as [H Hst]. apply andb_true_iff in Hst as [Hst Hsub].
+  apply andb_true_iff in Hst as [Hkeys Hids]. destruct (keys_okb_sh _ Hkeys) as [Hsh Hnm].
+  split; auto. rewrite H, Hsh, Hsub. cbn. rewrite andb_true_r.
+  unfold first_named_okb. apply forallb_forall. intros e He.
+  apply String.eqb_eq. apply (Hnm ""). eapply first_occ_incl; eauto.
+Qed.
+
+(* ------------------------------------------------------------------ examples and witnesses (sharing) *)
+(* one Parameter object in every position: same module under two keys (0: scale/gain), siblings in a
+   Sequential (2), three registrations across containers (2 again, late append to the ModuleList),
+   parent and child (4), two unrelated modules (1) *)
+Definition ex_shared (root : option string) : spec :=
+  SMod root [PE "scale" 0 "scale"; PE "gain" 0 "scale"]
+    [("layers", SCont false
+        [SMod None [PE "w" 1 "w"] [("mlp", SCont true [leaf None 2; leaf None 2] [] [leaf None 3])] false]
+        [] [leaf None 2]);
+     ("head", SMod (Some "head") [PE "w" 1 "w"; PE "weight" 4 "weight"] [("inner", leaf None 4)] false);
+     ("tail", leaf None 5)] false.
+
+Example ex_shared_ok :
+  program_sh_okb cfg_pinned (ex_shared (Some "model")) = true /\
+  program_sh_okb cfg_fixed (ex_shared (Some "model")) = true /\
+  program_sh_okb cfg_fixed (ex_shared None) = true /\
+  nodup_natb (param_ids (construct cfg_fixed (ex_shared (Some "model")))) = false /\
+  program_okb cfg_fixed (ex_shared (Some "model")) = false.
+Proof. vm_compute. repeat split; reflexivity. Qed.
+
+Example ex_shared_names :
+  realised_names cfg_fixed (construct cfg_fixed (ex_shared (Some "model"))) =
+  ["model.scale"; "model.layers.0.w"; "model.layers.0.mlp.0.weight"; "model.layers.0.mlp.2.weight";
+   "model.head.weight"; "model.tail.weight"] /\
+  sd_keys (construct cfg_fixed (ex_shared (Some "model"))) =
+  ["scale"; "gain"; "layers.0.w"; "layers.0.mlp.0.weight"; "layers.0.mlp.1.weight"; "layers.0.mlp.2.weight";
+   "layers.1.weight"; "head.w"; "head.weight"; "head.inner.weight"; "tail.weight"] /\
+  init_dict cfg_fixed (construct cfg_fixed (ex_shared (Some "model"))) =
+  [("model.scale", 0); ("model.layers.0.w", 1); ("model.layers.0.mlp.0.weight", 2);
+   ("model.layers.0.mlp.2.weight", 3); ("model.head.weight", 4); ("model.tail.weight", 5)].
+Proof. vm_compute. repeat split; reflexivity. Qed.
+
+(* the no-sharing side of the equivalence is inhabited by the depth-4 program of the positive theorems *)
+Example ex_unshared_ok :
+  program_sh_okb cfg_pinned (ex_program (Some "model")) = true /\
+  nodup_natb (param_ids (construct cfg_pinned (ex_program (Some "model")))) = true.
+Proof. vm_compute. repeat split; reflexivity. Qed.
+
+(* a shared Parameter registered under a different key FIRST in call order than in construction order is
+   outside the hypotheses: its own name is the key of the registration executed first *)
+Definition w_shared_late_first : spec :=
+  SMod (Some "root") [] [("l", SCont false [SCont false [] [] [SMod None [PE "w" 0 "v"] [] false];
+                                            SMod None [PE "v" 0 "v"] [] false] [] [])] false.
+Theorem shared_first_named_refuted :
+  consistentb URoot w_shared_late_first = true /\ keys_shb (construct cfg_fixed w_shared_late_first) = true /\
+  first_named_okb (construct cfg_fixed w_shared_late_first) = false /\
+  realised_names cfg_fixed (construct cfg_fixed w_shared_late_first) = ["root.l.0.0.v"] /\
+  sd_keys (construct cfg_fixed w_shared_late_first) = ["l.0.0.w"; "l.1.v"].
+Proof. vm_compute. repeat split; reflexivity. Qed.
+
+(* --- shared SUB-MODULES at the level of object graphs: the object appears as identical subtrees *)
+Definition m_leaf (nm : string) (id : nat) : mtree := MT KMod (Some nm) [PE "w" id "w"] [] false.
+(* registered under the same key in two parents: all hypotheses hold, the sharing theorems apply *)
+Definition w_submod_same_key : mtree :=
+  MT KMod (Some "root") []
+     [("x", MT KMod (Some "x") [] [("a", m_leaf "a" 0)] false);
+      ("y", MT KMod (Some "y") [] [("a", m_leaf "a" 0)] false)] false.
+(* registered under two keys of one parent: the second registration keeps the name "a" *)
+Definition w_submod_two_keys : mtree :=
+  MT KMod (Some "root") [] [("a", m_leaf "a" 0); ("b", m_leaf "a" 0)] false.
+(* first registered (named) as x.a, but called first through y.b: the initializer name root.y.a.w is not
+   root + any state_dict key *)
+Definition w_submod_misnamed : mtree :=
+  MT KMod (Some "root") []
+     [("y", MT KMod (Some "y") [] [("b", m_leaf "a" 0)] false);
+      ("x", MT KMod (Some "x") [] [("a", m_leaf "a" 0)] false)] false.
+(* self.b = m; self.l = ModuleList([m, other]): the list renames the object to l.0 *)
+Definition w_submod_list_renames : mtree :=
+  MT KMod (Some "root") []
+     [("b", m_leaf "l.0" 0);
+      ("l", MT KList (Some "l") [] [("0", m_leaf "l.0" 0); ("1", m_leaf "l.1" 1)] false)] false.
+
+Example ex_submod_same_key :
+  tree_sh_okb cfg_fixed w_submod_same_key = true /\ tree_sh_okb cfg_pinned w_submod_same_key = true /\
+  nodup_natb (param_ids w_submod_same_key) = false /\
+  realised_names cfg_fixed w_submod_same_key = ["root.x.a.w"] /\
+  sd_keys w_submod_same_key = ["x.a.w"; "y.a.w"].
+Proof. vm_compute. repeat split; reflexivity. Qed.
+
+Theorem shared_submodule_refuted :
+  (* without `shape_ok` the description by first registrations fails ... *)
+  sharing_okb cfg_fixed w_submod_misnamed = true /\ shape_okb w_submod_misnamed = false /\
+  realised_names cfg_fixed w_submod_misnamed = ["root.y.a.w"] /\
+  map (prefix (root_name w_submod_misnamed)) (first_keys w_submod_misnamed) = ["root.y.b.w"] /\
+  sd_keys w_submod_misnamed = ["y.b.w"; "x.a.w"] /\
+  (* ... also when a container renames the shared object: the name is a state_dict key, of the second registration *)
+  sharing_okb cfg_fixed w_submod_list_renames = true /\ shape_okb w_submod_list_renames = false /\
+  realised_names cfg_fixed w_submod_list_renames = ["root.l.0.w"; "root.l.1.w"] /\
+  sd_keys w_submod_list_renames = ["b.w"; "l.0.w"; "l.1.w"] /\
+  (* ... although `shape_ok` is not necessary *)
+  shape_okb w_submod_two_keys = false /\
+  realised_names cfg_fixed w_submod_two_keys = map (prefix "root") (first_keys w_submod_two_keys).
+Proof. vm_compute. repeat split; reflexivity. Qed.
+
+(* aliasing after construction: self.head2 = self.head under another key / the same key elsewhere *)
+Definition ex_alias_base : spec :=
+  SMod (Some "model") []
+    [("enc", SMod None [] [("proj", leaf None 0)] false);
+     ("dec", SMod None [PE "w" 1 "w"] [] false)] false.
+Example ex_alias_same_key :
+  match aliases (construct cfg_fixed ex_alias_base) [(["enc"; "proj"], ["dec"], "proj")] with
+  | Some t => tree_sh_okb cfg_fixed t = true /\ nodup_natb (param_ids t) = false /\
+              alias_keys_match (construct cfg_fixed ex_alias_base) [(["enc"; "proj"], ["dec"], "proj")] = true /\
+              realised_names cfg_fixed t = ["model.enc.proj.weight"; "model.dec.w"] /\
+              sd_keys t = ["enc.proj.weight"; "dec.w"; "dec.proj.weight"]
+  | None => False
+  end.
+Proof. vm_compute. repeat split; reflexivity. Qed.
+Example ex_alias_other_key :
+  match aliases (construct cfg_fixed ex_alias_base) [(["enc"; "proj"], ["dec"], "out")] with
+  | Some t => shape_okb t = false /\
+              alias_keys_match (construct cfg_fixed ex_alias_base) [(["enc"; "proj"], ["dec"], "out")] = false
+  | None => False
+  end.
+Proof. vm_compute. repeat split; reflexivity. Qed.
+
+(* What is NOT proved for shared sub-modules: that aliasing programs whose keys match the shared module's
+   name always produce object graphs satisfying `shape_ok` (then the sharing theorems apply).  Missing:
+   the induction over `graft_at` showing `shape_ok` is preserved when `named key c` is grafted under a
+   plain Module; programs that register an existing module in a ModuleList / Sequential (the container
+   renames the object) are not expressible as construction programs at all. *)
+Definition shared_submodule_names_full : Prop :=
+  forall cf s al t,
+    consistentb URoot s = true -> spec_kind s <> KList ->
+    alias_dsts_ok al = true -> alias_keys_match (construct cf s) al = true ->
+    aliases (construct cf s) al = Some t -> sharing_okb cf t = true ->
+    realised_names cf t = map (prefix (root_name t)) (first_keys t) /\
+    (realised_names cf t = map (prefix (root_name t)) (sd_keys t) <-> nodup_natb (param_ids t) = true).
+
+(* proved: the same conclusion for every object graph, however it was built, that satisfies the
+   decidable hypotheses `tree_sh_okb` (names propagated); the harness evaluates them on the object
+   graphs it observes on the real code *)
+Theorem shared_submodule_names_partial : forall cf t, tree_sh_okb cf t = true ->
+  realised_names cf t = map (prefix (root_name t)) (first_keys t) /\
+  (realised_names cf t = map (prefix (root_name t)) (sd_keys t) <-> nodup_natb (param_ids t) = true) /\
+  map snd (init_dict cf t) = distinct_ids t /\ NoDup (distinct_ids t).
+Proof.
+  intros cf t H. apply tree_sh_okb_hyps in H. split; [|split].
+  - now apply realised_names_sharing.
+  - now apply names_eq_iff_no_sharing_tree.
+  - destruct (params_once_sharing cf t H) as (_ & _ & A & B & _). auto.
+Qed.
